@@ -45,6 +45,17 @@ def step (st : St) (line : String) : St × String :=
     match parseCfg kind lv fl with
     | some (pipe, cfg) => (run { live := true, pipe := pipe, cfg := cfg, s := init }, "ok")
     | none => (st, "bad-op")
+  | ["take", p, lev, val, text] =>
+    -- `send` by producer p up to and including its ticket; the element is published by a later `publish p`
+    if st.live then
+      match p.toNat?, lev.toNat?, val.toNat? with
+      | some p, some lev, some val =>
+        if lev > 4 then (st, "bad-op") else
+        let t := if text == "-" then [] else text.toList
+        let s' := execAll V st.cfg [.submit p lev val t true true] st.s
+        ({ st with s := s' }, if st.cfg.loggable lev then "ok" else "ret=1")
+      | _, _, _ => (st, "bad-op")
+    else (st, "bad-op")
   | [op, p, lev, val, text] =>
     if (op == "send" || op == "enq") && st.live then
       match p.toNat?, lev.toNat?, val.toNat? with
@@ -57,6 +68,19 @@ def step (st : St) (line : String) : St × String :=
           | _ => "ret=0"
         ({ st with s := s' }, r)
       | _, _, _ => (st, "bad-op")
+    else (st, "bad-op")
+  | ["publish", p] =>
+    -- the rest of the push of the stalled producer `p` (its ticket is the first incomplete slot carrying its pid)
+    if st.live then
+      match p.toNat? with
+      | some p =>
+        match st.s.queue.findIdx? (fun sl => !sl.done && sl.line.pid == p && !sl.line.isStop) with
+        | some i =>
+          match exec V st.cfg (.pushDone i) st.s with
+          | some s' => ({ st with s := s' }, "ret=1")
+          | none => (st, "bad-op")
+        | none => (st, "bad-op")
+      | none => (st, "bad-op")
     else (st, "bad-op")
   | ["run"] =>
     if st.live then
